@@ -246,6 +246,7 @@ fn main() {
     let mut rust_out = vec![];
     let mut inputs = vec![];
     let mut reps = vec![];
+    let mut frozen_diffs: Vec<(String, String, String, String)> = vec![];
     for c in &cases {
         let (src, probe) = if c.kind == "bin" {
             let e = format!("({}) {} ({})", c.src_a, c.op, c.src_b);
@@ -270,6 +271,15 @@ fn main() {
             }
         };
         let out = interp.eval(&src);
+        // the constant folder of `freeze` (and of the CLI's warn pass) rewrites unary operators applied to a
+        // literal: the folded constant must be the operator's value (reference-only: interpreter vs itself)
+        if c.kind == "un" && (c.op == "neg" || c.op == "not") {
+            let fsrc = format!("freeze ({})", src);
+            let fout = interp.eval(&fsrc);
+            if fout.class() != out.class() {
+                frozen_diffs.push((c.op.clone(), fsrc, fout.class(), out.class()));
+            }
+        }
         let res_rep = match &out {
             Outcome::Ok(_) => match interp.eval(&format!("is_big({})", src)) {
                 Outcome::Ok(s) if s == "1" => "b",
@@ -325,5 +335,49 @@ fn main() {
         }
     }
     rep.notes.push(format!("result-representation drift (diagnostic only): {}", fidelity_drift));
+    // vectorised forms: an operator applied to a vector and a scalar (either side) or to two vectors is the
+    // operator applied elementwise (reference-only: the interpreter's vector result against its own scalar
+    // results, which the sweep above ties to the model)
+    {
+        let vals: Vec<String> = ["0", "1", "(0-1)", "2", "(0-3)", "7", "9223372036854775807", "(0-9223372036854775807-1)", "(2^64)", "(0-2^64)"]
+            .iter().map(|x| x.to_string()).collect();
+        let vops = ["+", "-", "*", "//", "%", "%%", "/!", "&", "|", "~", "gcd", "lcm", "==", "<"];
+        let mut nvec = 0u64;
+        for (i, a1) in vals.iter().enumerate() {
+            for (j, b1) in vals.iter().enumerate() {
+                let a2 = &vals[(i * 3 + j + 1) % vals.len()];
+                let b2 = &vals[(j * 5 + i + 2) % vals.len()];
+                for op in vops.iter() {
+                    let forms = [
+                        (format!("V({}, {}) {} ({})", a1, a2, op, b1), format!("V(({}) {} ({}), ({}) {} ({}))", a1, op, b1, a2, op, b1), "vec-scalar"),
+                        (format!("({}) {} V({}, {})", a1, op, b1, b2), format!("V(({}) {} ({}), ({}) {} ({}))", a1, op, b1, a1, op, b2), "scalar-vec"),
+                        (format!("V({}, {}) {} V({}, {})", a1, a2, op, b1, b2), format!("V(({}) {} ({}), ({}) {} ({}))", a1, op, b1, a2, op, b2), "vec-vec"),
+                    ];
+                    for (vsrc, rsrc, shape) in forms.iter() {
+                        let want = interp.eval(rsrc);
+                        // comparison operators are not elementwise on vectors: only judge when the elementwise
+                        // reference itself is what the language defines (arithmetic / bit operators)
+                        if *op == "==" || *op == "<" {
+                            continue;
+                        }
+                        let got = interp.eval(vsrc);
+                        nvec += 1;
+                        rep.case(vsrc, true);
+                        rep.arm(&format!("vectorised:{}", shape));
+                        if got.class() != want.class() {
+                            rep.judge(&format!("vectorised:{}:{}", op, shape), vsrc, &got.class(), &want.class(), &want.class());
+                        }
+                    }
+                }
+            }
+        }
+        rep.notes.push(format!("vectorised forms compared with their elementwise reference: {}", nvec));
+    }
+    for (op, fsrc, got, want) in &frozen_diffs {
+        rep.case(fsrc, true);
+        rep.arm("freeze-fold");
+        rep.judge(&format!("freeze-fold:{}", op), fsrc, got, want, want);
+    }
+    rep.notes.push("unary - and ~ on every generated operand are also evaluated under `freeze` (constant folding) and must give the same value".to_string());
     rep.write(&args.out);
 }
